@@ -36,6 +36,14 @@ func c05Plan(tier string, seed uint64) (jobs []rt.Job) {
 	for b := 0; b < nk; b++ {
 		jobs = append(jobs, rt.Job{ID: fmt.Sprintf("C05/crafted/%d", b), Kind: "crafted", Cost: 2, Args: map[string]interface{}{"batch": b}})
 	}
+	// constructions under a degenerate public key (t1 = 0): every verifier-side condition in isolation
+	nd := 8
+	if !q {
+		nd = 96
+	}
+	for b := 0; b < nd; b++ {
+		jobs = append(jobs, rt.Job{ID: fmt.Sprintf("C05/degenerate/%d", b), Kind: "degenerate", Cost: 3, Args: map[string]interface{}{"batch": b}})
+	}
 	// exact-boundary R1 witnesses: committed corpus re-generated and judged; thorough also searches for new ones
 	if n := len(readLines(corpusC05)); n > 0 {
 		for lo := 0; lo < n; lo += 4 {
@@ -165,6 +173,8 @@ func c05Run(j *rt.Job, seed uint64, r *rt.Rec) {
 	switch j.Kind {
 	case "crafted":
 		c05Crafted(j, rng, r)
+	case "degenerate":
+		c05Degenerate(j, rng, r)
 	case "r1search":
 		// signer holding the key, skipping only the norm test, looking for |z|max exactly gamma1-beta
 		ks := rng.Seed48()
